@@ -134,6 +134,13 @@ CLAIMS = {
             "End-to-end at-least-once and StickyAssignment's induction over calls are not decided.",
             "Trusted: message ids unique; handlers atomic (checked).",
             "DESIGN.md §5 C19"),
+    "C20": ("sibling agreement of update/query index computation, one-way write check of every cell write, merge-guard ⊇ parameters the index helper transitively reads, path tables of TopK.add, must-facts at every 'no difference' return of the Merkle diff",
+            "Decides the structural clauses: Bloom/Count-Min add and query index alike through one hashlib-based helper; cells only |= / += non-negative / max and queries aggregate with all-bits / min; "
+            "merge is guarded by every parameter the index depends on (incl. seeds) and combines the whole array cell-wise, totals added; TopK.add is the three-case space-saving update; "
+            "t-digest maintains min/max, clamps merged means and answers q=0/1 with min/max; the reservoir only grows below capacity and merges to min(k, n); Merkle diff is empty only on equal hashes, "
+            "leaf hash covers key and value, the root is rebuilt after every change. Numeric accuracy, t-digest monotonicity in q and reservoir uniformity are not decided.",
+            "Trusted: sha256 collision-free; repr(item) identifies the item.",
+            "DESIGN.md §5 C20"),
 }
 
 NOT_YET = "rule pack not built yet in this session (see DESIGN.md §11); no check is claimed for it"
